@@ -4,6 +4,7 @@ import (
 	"bytes"
 	"io"
 	"sync"
+	"time"
 
 	"github.com/influxdata/kapacitor/command"
 )
@@ -14,6 +15,8 @@ type FakeCommander struct {
 	Calls []ExecCall
 	// Gate, if non-nil, is received from in Start (stalls the handler).
 	Gate chan struct{}
+	// Delay: every command takes this long (virtual time inside a bubble).
+	Delay time.Duration
 }
 
 type ExecCall struct {
@@ -38,6 +41,9 @@ type fakeCmd struct {
 func (f *fakeCmd) Start() error {
 	if f.c.Gate != nil {
 		<-f.c.Gate
+	}
+	if f.c.Delay > 0 {
+		time.Sleep(f.c.Delay)
 	}
 	var b bytes.Buffer
 	if f.in != nil {
